@@ -547,6 +547,152 @@ def alloc_trunc_rule(chk, prog, files):
     return n
 
 
+def payload_walk_rule(chk, prog):
+    """K6-payload: the variable part of an inode (block sizes, link target, directory index) lies behind the inode in one
+    allocation and `payload_bytes_used` / `payload_bytes_available` say how much of it there is.  A copy out of it at a
+    variable offset is dominated by a comparison of that offset with one of the two: the walk over the directory index is
+    stopped by the size of the blob, not by a count the image supplies."""
+    n = 0
+    for f in prog.functions():
+        if f.decl or "/test/" in f.unit.src or not f.unit.src.startswith(("lib/sqfs/src/", "lib/common/src/", "bin/rdsquashfs/",
+                                                                           "bin/sqfs2tar/", "bin/sqfsdiff/")):
+            continue
+        f.build()
+        for c in f.calls():
+            if norm_callee(c.callee) not in ("memcpy", "memmove") or len(c.ops) < 3:
+                continue
+            sl = backward_slice(c.ops[1], phi_control=False)
+            if not any(x.is_inst and x.op == "getelementptr" and x.field() and x.field()[1] == "extra" and
+                       "sqfs_inode_generic_t" in x.field()[0] for x in sl):
+                continue
+            idx = []
+            for x in sl:
+                if x.is_inst and x.op == "getelementptr" and not x.field():
+                    idx += [el[1] for el in x.x["gep"] if el[0] in ("*", "[]") and not el[1].is_const]
+            if not idx:
+                continue
+            n += 1
+            chk.analysed(f)
+            inst = "%s:memcpy@%d" % (f.name, c.line)
+            vals = set()
+            for v in idx:
+                for y in backward_slice(v, phi_control=False):
+                    vals.add(id(y))
+            ok = False
+            for cond, outcome, br in f.guards_at(c.bb):
+                if not (cond.is_inst and cond.op == "icmp" and outcome in (True, False)):
+                    continue
+                sides = []
+                for o in cond.ops:
+                    so = backward_slice(o, phi_control=False)
+                    is_len = any(y.is_inst and y.op == "load" and strip_casts(y.ops[0]).is_inst and
+                                 strip_casts(y.ops[0]).op == "getelementptr" and strip_casts(y.ops[0]).field() and
+                                 strip_casts(y.ops[0]).field()[1] in ("payload_bytes_used", "payload_bytes_available") for y in so)
+                    is_off = any(id(y) in vals for y in so if not y.is_const)
+                    sides.append((is_len, is_off))
+                if (sides[0][1] and sides[1][0] and not sides[0][0]):
+                    ok = ok or (cond.pred in ("ult", "ule", "slt", "sle") and outcome) or (cond.pred in ("uge", "ugt", "sge", "sgt") and not outcome)
+                if (sides[1][1] and sides[0][0] and not sides[1][0]):
+                    ok = ok or (cond.pred in ("ugt", "uge", "sgt", "sge") and outcome) or (cond.pred in ("ule", "ult", "sle", "slt") and not outcome)
+            if ok:
+                chk.ok("K6-payload", inst, c, "the offset into the inode's payload was compared with the number of payload bytes")
+            else:
+                chk.violation("K6-payload", inst, c, "bytes are copied out of the inode's payload at a variable offset that no dominating "
+                              "test compares with payload_bytes_used / payload_bytes_available: a count or a size the image supplies "
+                              "moves the read behind the allocation")
+    return n
+
+
+def double_release_rule(chk, prog):
+    """K8-twice: a function that releases what hangs off its object on its own failure path ("fails closed": it calls the
+    object's release function before it answers non-zero) leaves nothing for the caller to release.  From the failure edge
+    of a call of such a function, no path reaches a call of the release function with the same object."""
+    from ..errflow import ret_sources, failure_edges
+    n = 0
+    # release functions: static, one pointer parameter, void, drop / free members of it
+    def releases(d):
+        if d.decl or len(d.params) != 1:
+            return False
+        d.build()
+        k = 0
+        for c in d.calls():
+            if norm_callee(c.callee) in ("sqfs_drop", "free", "sqfs_free", "sqfs_dir_tree_destroy") and c.ops:
+                v = strip_casts(c.ops[0])
+                if v.is_inst and v.op == "load":
+                    q = strip_casts(v.ops[0])
+                    if q.is_inst and q.op == "getelementptr" and q.field() and strip_casts(q.ops[0]) is d.params[0]:
+                        k += 1
+        return k >= 2
+    for g in prog.functions():
+        if g.decl or "/test/" in g.unit.src or not g.unit.src.startswith("bin/"):
+            continue
+        g.build()
+        closed = None
+        for c in g.calls():
+            d = prog.fn(c.callee, g.unit) if c.callee else None
+            if d is None or d is g or not releases(d) or not c.ops:
+                continue
+            k = next((i for i, a in enumerate(g.params) if a is strip_casts(c.ops[0])), None)
+            if k is None:
+                continue
+            # the release sits on a way to a non-zero answer only
+            rb = {b for (v, b) in ret_sources(g) if strip_casts(v).is_const and strip_casts(v).is_int and strip_casts(v).sval == 0}
+            seen, work = set(), list(c.bb.succs)
+            while work:
+                b = work.pop()
+                if b in seen:
+                    continue
+                seen.add(b)
+                work.extend(b.succs)
+            if not (rb & (seen | {c.bb})):
+                closed = (d, k)
+        if closed is None:
+            continue
+        d, k = closed
+        for c in prog.callers_of(g):
+            f = c.fn
+            f.build()
+            if k >= len(c.ops):
+                continue
+            obj = strip_casts(c.ops[k])
+            n += 1
+            chk.analysed(f)
+            inst = "%s:%s@%d" % (f.name, g.name, c.line)
+            fails = [s_ for (s_, _why) in failure_edges(f, c)]
+            if not fails:
+                chk.ok("K8-twice", inst, c, "the result is not branched on here", nontrivial=False)
+                continue
+            seen, work, bad = set(), list(fails), None
+            while work and bad is None:
+                b = work.pop()
+                if b in seen:
+                    continue
+                seen.add(b)
+                for i in b.insts:
+                    if i.op == "call" and i.callee and prog.fn(i.callee, f.unit) is d and i.ops and _same_obj(strip_casts(i.ops[0]), obj):
+                        bad = i
+                        break
+                work.extend(b.succs)
+            if bad is None:
+                chk.ok("K8-twice", inst, c, "after %s failed (and released the object itself) nothing releases it again" % g.name)
+            else:
+                chk.violation("K8-twice", inst, bad, "%s releases the object with %s before it reports failure; from that failure a "
+                              "path reaches %s on the same object again: every member is dropped twice (use after free, double "
+                              "free)" % (g.name, d.name, d.name))
+    return n
+
+
+def _same_obj(a, b):
+    if a is b:
+        return True
+    if a.is_inst and b.is_inst and a.op == b.op == "getelementptr":
+        return a.x.get("gep") is not None and b.x.get("gep") is not None and \
+            [(e[0], e[1] if e[0] not in ("*", "[]") else (e[1].sval if e[1].is_const else id(e[1]))) for e in a.x["gep"]] == \
+            [(e[0], e[1] if e[0] not in ("*", "[]") else (e[1].sval if e[1].is_const else id(e[1]))) for e in b.x["gep"]] and \
+            _same_obj(strip_casts(a.ops[0]), strip_casts(b.ops[0]))
+    return False
+
+
 def run(chk):
     chk.explanation = (
         "K6 bounded-sink rule over every unit anchored by the property (all readers, decompressors, tree readers, "
@@ -558,7 +704,7 @@ def run(chk):
         "bounds) against buffers whose capacity is fixed at their allocation sites. Plus: directory-loop check on the "
         "recursion path, table windows from superblock fields, superblock sanity tests dominate success, "
         "allocation-size arithmetic. Out-of-bounds reads through string functions, termination of every loop and "
-        "the codec libraries are not decided. Further rules: K8-dangling (a freed pointer is not left in caller-visible memory on any path to return), the growth prover inside K6 (capacity invariant of re-allocated buffers plus per-edge linear proof), K1-double (a value doubled until large enough is non-zero on loop entry). K6-fill (sa/slack.py): the metadata reader's cursor stays within the valid part of its block buffer at every store, every copy out of it is at most data_used - offset long; K6-outcontract: a do_block implementation answers a size decoded from its input only where it compared it with outsize; flexible members are sized by the allocation sites that can be behind the member that designates them. K5-nullok (sa/nullok.py, a contradiction rule): where a function answers success on the edge on which a pointer member of its object is NULL, nothing behind the caller's success edge hands the object to a function that uses that member without a test. K13-trunc: a byte count that sizes a window or an allocation for a table is not narrowed below the width it was computed in.")
+        "the codec libraries are not decided. Further rules: K8-dangling (a freed pointer is not left in caller-visible memory on any path to return), the growth prover inside K6 (capacity invariant of re-allocated buffers plus per-edge linear proof), K1-double (a value doubled until large enough is non-zero on loop entry). K6-fill (sa/slack.py): the metadata reader's cursor stays within the valid part of its block buffer at every store, every copy out of it is at most data_used - offset long; K6-outcontract: a do_block implementation answers a size decoded from its input only where it compared it with outsize; flexible members are sized by the allocation sites that can be behind the member that designates them. K5-nullok (sa/nullok.py, a contradiction rule): where a function answers success on the edge on which a pointer member of its object is NULL, nothing behind the caller's success edge hands the object to a function that uses that member without a test. K6-payload: a copy out of an inode's payload at a variable offset is dominated by a comparison of the offset with payload_bytes_used / payload_bytes_available. K8-twice: after a function that releases its object itself on failure, the caller's failure path does not release the object again. K13-trunc: a byte count that sizes a window or an allocation for a table is not narrowed below the width it was computed in.")
     chk.assumptions = ["a pointer to struct T points to at least sizeof(T) bytes",
                        "SZ_ADD_OV/SZ_MUL_OV results are used only where the overflow bit was tested (C05-e is partial)"]
     prog = load_program("all")
@@ -579,6 +725,10 @@ def run(chk):
                    lambda src: src.startswith(("lib/sqfs/", "lib/common/", "bin/rdsquashfs/", "bin/sqfs2tar/", "bin/sqfsdiff/"))
                    and "/test/" not in src, seen_n)
     chk.floor("K5-nullok", 10)
+    payload_walk_rule(chk, prog)
+    chk.floor("K6-payload", 3)
+    double_release_rule(chk, prog)
+    chk.floor("K8-twice", 2)
     from ..progress import run_doubling
     run_doubling(chk, prog, "K1-double", lambda src: src.startswith(("lib/sqfs/", "lib/common/", "lib/util/")) and "/test/" not in src)
     chk.floor("K1-double", 1)
